@@ -29,7 +29,8 @@ Families (--tier quick: 3000 histories, thorough: 15000 per seed):
 exhaustive: every order of <= 5 lifecycle operations on a root with two nested children and one pen
             (DESIGN §7 C08), each followed by flush and end.
 """
-import argparse, random, json, itertools
+import argparse, random, json, itertools, zlib
+def dhash(seq): return zlib.crc32("|".join(seq).encode())
 
 ap = argparse.ArgumentParser()
 ap.add_argument("--seed", type=int, default=1); ap.add_argument("--tier", default="quick")
@@ -704,7 +705,7 @@ if a.tier == "exhaustive":
     nh = 0
     for k in range(1, 5):
         for seq in itertools.product(alphabet, repeat=k):
-            if k == 4 and (hash(seq) ^ a.seed) % 4 != 0:   # a quarter of the 4-sequences per seed
+            if k == 4 and (dhash(seq) ^ a.seed) % 4 != 0:   # a quarter of the 4-sequences per seed
                 continue
             emit("new 6 12"); emit("win 0 0 0 4 8 0"); emit("win 1 0 0 2 4 0"); emit("win 0 1 1 3 3 0"); emit("pen")
             emit("bind 2 key 0 u2")
@@ -756,8 +757,36 @@ if a.tier == "exhaustive":
             emit("newtop 6 12"); emit("win 0 0 0 4 8 0"); emit("win 1 0 0 2 4 0"); emit("bind 2 key 0 u2")
             for o in seq: emit(o)
             emit("end"); ni += 1
-    info = {"mock_display_histories": nm, "terminput_histories": nt, "toplevel_histories": ni}
-    info.update({"exhaustive_bound": "all sequences of <=3 (and a seed-selected quarter of the length-4) operations over a 13-letter lifecycle alphabet on root>1>2, 3 sibling of 1, one pen, one self-unref key handler; each followed by flush and end; tickit_mockterm_get_display_text with every buffer length (short of the known exact-fill overflow) for every span of five fixed lines of multi-byte, double-width and combining cells; all sequences of <=3 operations over a 12-letter alphabet of terminal input calls with a quitting key handler on the terminal, and over a 14-letter alphabet of toplevel-instance calls on root>1>2", "histories": nh})
+    # tickit_mockterm_resize: from 3x4 with content in the last line and column to every size of 1..5 x 1..6 and on to a
+    # second size (seed-selected), the display read back after each
+    nr = 0
+    for nL in range(1, 6):
+        for nC in range(1, 7):
+            L2, C2 = 1 + (nL * 7 + nC * 3 + a.seed) % 5, 1 + (nL * 5 + nC + a.seed) % 6
+            emit("newmock 3 4"); emit("mprint 2 0 61c3a9e4b8ad"); emit("mprint 0 3 7a")
+            scr = [["20"] * 4 for _ in range(3)]
+            mock_print(scr, 3, 4, 2, 0, [("61", 1), ("c3a9", 1), ("e4b8ad", 2)]); mock_print(scr, 3, 4, 0, 3, [("7a", 1)])
+            for (xl, xc) in ((nL, nC), (L2, C2)):
+                emit("mresize %d %d" % (xl, xc)); scr = mock_resize(scr, xl, xc)
+                for line in sorted({0, xl - 1}):
+                    inside, other = mock_lens(scr, line, 0, xc)
+                    cand = [x for x in inside + other if x > xc]
+                    emit("mdisp %d %d 0 %d" % (max(cand) if cand else 0, line, xc))
+            emit("end"); nr += 1
+    # the SIGWINCH observer list: the main terminal and three further ones, all observing; every sequence of <= 3 of:
+    # stop / observe again (each terminal), destroy (each further terminal), the signal.  Sequences that observe again
+    # with a stale link run into known finding sigwinch_stale_next on the unrepaired tree.
+    alpha_s = ["xobs 0 0", "xobs 1 0", "xobs 2 0", "xobs 0 1", "xobs 1 1", "xobs 2 1", "tobs 0", "tobs 1", "xunref 0", "xunref 1", "xunref 2", "winch"]
+    nsw = 0
+    for k in range(1, 4):
+        for seq in itertools.product(alpha_s, repeat=k):
+            if k == 3 and (dhash(seq) ^ a.seed) % 2 != 0: continue
+            emit("new 6 12"); emit("xnew"); emit("xnew"); emit("xnew")
+            for o in (["xobs 0 1", "tobs 1", "xobs 1 1", "xobs 2 1"] if len(seq) % 2 else ["tobs 1", "xobs 2 1", "xobs 1 1", "xobs 0 1"]): emit(o)
+            for o in seq: emit(o)
+            emit("winch"); emit("end"); nsw += 1
+    info = {"mock_display_histories": nm, "terminput_histories": nt, "toplevel_histories": ni, "mock_resize_histories": nr, "sigwinch_histories": nsw}
+    info.update({"exhaustive_bound": "all sequences of <=3 (and a seed-selected quarter of the length-4) operations over a 13-letter lifecycle alphabet on root>1>2, 3 sibling of 1, one pen, one self-unref key handler; each followed by flush and end; tickit_mockterm_get_display_text with every buffer length (short of the known exact-fill overflow) for every span of five fixed lines of multi-byte, double-width and combining cells; all sequences of <=3 operations over a 12-letter alphabet of terminal input calls with a quitting key handler on the terminal, and over a 14-letter alphabet of toplevel-instance calls on root>1>2; tickit_mockterm_resize from 3x4 to every size of 1..5 x 1..6 and on to a second size; all sequences of <=2 (and half of those of 3) operations over a 12-letter alphabet of observe/stop/destroy/SIGWINCH on four observing terminals", "histories": nh})
 else:
     scale = 1 if a.tier == "quick" else 5
     fams = {"tree": 700, "handlers": 700, "foreign": 400, "objects": 400, "pens": 400, "copyout": 400, "terminput": 500, "toplevel": 500, "mockresize": 360, "sigwinch": 400}
